@@ -550,6 +550,13 @@ func layout(in []Tok, eof Tok, r *rand.Rand, lay Layout) *Rendered {
 		}
 		return strings.Repeat(" ", n)
 	}
+	// in CR LF sources a comment line may end in more than the line ending: a stray CR, blanks in front of the CR
+	cmtEnd := func() string {
+		if lay.CRLF && r.IntN(10) == 0 {
+			return []string{"\r", " \r", "  \r\r", "\t"}[r.IntN(4)]
+		}
+		return ""
+	}
 	serial := 0
 	payload := func() string {
 		serial++
@@ -639,7 +646,7 @@ func layout(in []Tok, eof Tok, r *rand.Rand, lay Layout) *Rendered {
 					if chance(lay.Comment) {
 						write(commentGap(prev, spaces()))
 						c := Comment{Text: payload(), Off: sb.Len(), Line: line, OwnLine: false, Before: len(out.Toks)}
-						write("//" + c.Text)
+						write("//" + c.Text + cmtEnd())
 						out.Comments = append(out.Comments, c)
 					}
 					write(nl)
@@ -675,7 +682,7 @@ func layout(in []Tok, eof Tok, r *rand.Rand, lay Layout) *Rendered {
 			if prev != nil && chance(lay.StmtDecor/2) {
 				write(commentGap(prev, spaces()))
 				c := Comment{Text: payload(), Off: sb.Len(), Line: line, OwnLine: false, Before: len(out.Toks), Boundary: true}
-				write("//" + c.Text)
+				write("//" + c.Text + cmtEnd())
 				write(nl)
 				nlSeen = true
 				out.Comments = append(out.Comments, c)
@@ -702,7 +709,7 @@ func layout(in []Tok, eof Tok, r *rand.Rand, lay Layout) *Rendered {
 					} else {
 						write(indent())
 						c := Comment{Text: payload(), Off: sb.Len(), Line: line, OwnLine: true, Before: len(out.Toks), Boundary: true}
-						write("//" + c.Text)
+						write("//" + c.Text + cmtEnd())
 						write(nl)
 						nlSeen = true
 						out.Comments = append(out.Comments, c)
@@ -722,7 +729,7 @@ func layout(in []Tok, eof Tok, r *rand.Rand, lay Layout) *Rendered {
 			if chance(lay.Comment) && prev != nil {
 				write(commentGap(prev, spaces()))
 				c := Comment{Text: payload(), Off: sb.Len(), Line: line, OwnLine: false, Before: len(out.Toks), Boundary: t.Boundary}
-				write("//" + c.Text)
+				write("//" + c.Text + cmtEnd())
 				out.Comments = append(out.Comments, c)
 			}
 			write(nl)
@@ -734,7 +741,7 @@ func layout(in []Tok, eof Tok, r *rand.Rand, lay Layout) *Rendered {
 			for chance(lay.Comment) {
 				write(indent())
 				c := Comment{Text: payload(), Off: sb.Len(), Line: line, OwnLine: true, Before: len(out.Toks), Boundary: t.Boundary}
-				write("//" + c.Text)
+				write("//" + c.Text + cmtEnd())
 				write(nl)
 				out.Comments = append(out.Comments, c)
 			}
